@@ -1,5 +1,6 @@
 import Mqtt5V.Proofs.TraceInOrder
 import Mqtt5V.Model.Session
+import Mqtt5V.Props.C10
 /-! # C13 — losing the session is reported once through async_receive (flag machine)
 
 Model of the two session flags.  For every history of reconnects (any Session Present value), session
@@ -109,5 +110,56 @@ example : TraceIn.accepts [.connUp false, .subOk, .connUp false, .rxPub 0 0 5, .
 example : TraceIn.accepts [.connUp false, .subOk, .connUp false, .rxPub 0 0 5, .deliver 0 0 5, .deliver 9 0 0] = false := by decide
 
 end ComposedModel
+
+
+section Handshake
+open Mqtt5V.Model Mqtt5V.Model.Connect
+
+/-- the first value `decodeConnack` returns is the byte at the start of the variable header: the Connect Acknowledge Flags -/
+theorem decodeConnack_flags (c : Dec.Ctx) (pos remain sp rc : Nat) (ps : Wire.Props) (p : Nat)
+    (h : Dec.decodeConnack c pos remain = .ok (sp, rc, ps) p) : sp = c.mem.getD pos 0 := by
+  unfold Dec.decodeConnack at h
+  dsimp only at h
+  cases hb : Dec.byte c pos (pos + remain) with
+  | fail => rw [hb] at h; simp [Dec.Res.bind, Dec.whole] at h
+  | oob => rw [hb] at h; simp [Dec.Res.bind, Dec.whole] at h
+  | ok v q =>
+    have hv : v = c.mem.getD pos 0 := by
+      unfold Dec.byte at hb
+      split at hb
+      · cases hb
+      · split at hb
+        · cases hb
+        · simp only [Dec.Res.ok.injEq] at hb; exact hb.1.symm
+    rw [hb] at h
+    simp only [Dec.Res.bind] at h
+    cases hb2 : Dec.byte c q (pos + remain) with
+    | fail => rw [hb2] at h; simp [Dec.whole] at h
+    | oob => rw [hb2] at h; simp [Dec.whole] at h
+    | ok rc' q2 =>
+      rw [hb2] at h
+      simp only at h
+      cases hp : Dec.props Gen.PropTable.connackProps c q2 (pos + remain) with
+      | fail => rw [hp] at h; simp [Dec.whole] at h
+      | oob => rw [hp] at h; simp [Dec.whole] at h
+      | ok ps' q3 =>
+        rw [hp] at h
+        simp only [Dec.whole] at h
+        split at h
+        · simp only [Dec.Res.ok.injEq, Prod.mk.injEq] at h
+          rw [← h.1.1, hv]
+        · cases h
+
+/-- **the Session Present flag the client stores is the CONNACK's**: whatever bytes the broker sends in reply to CONNECT, if the handshake is
+accepted with Session Present `sp`, then `sp` is the Connect Acknowledge Flags byte of the CONNACK that was received (the first byte behind
+its fixed header) and it is 0 or 1.  (The handshake model is tied to the real `connect_op` by the `hs` differential on H-stream, which also
+compares the stored flag; with an authenticator the stream monitor compares the stored flag with the reference decoder's.) -/
+theorem stored_session_present_is_the_connacks (rx : Wire.Bs) (sp : Nat) (ps : Wire.Props) (h : handshake rx = .established sp ps) :
+    sp ≤ 1 ∧ ∃ first len remain, frame (rx.take minPacketSz) = .more 0x20 first len remain ∧
+      sp = (rx.take (minPacketSz + remain)).getD first 0 := by
+  obtain ⟨_, hsp, first, len, remain, hf, _, p, hd⟩ := Mqtt5V.Props.C10.established_only_after_success_connack rx sp ps h
+  exact ⟨hsp, first, len, remain, hf, decodeConnack_flags _ _ _ _ _ _ _ hd⟩
+
+end Handshake
 
 end Mqtt5V.Props.C13
